@@ -30,6 +30,8 @@ def run(cx):
     r2(cx, "C20.R2")
     r3(cx)
     r4(cx)
+    cx.rule("C20.R5", "K1", "sibling cursors of the tree builders: every chain of children (one container, one handler) gets a cursor of its own that starts at the parent node and is reset exactly once per chain")
+    r5_cursors(cx, "C20.R5")
 
 
 # ------------------------------------------------------------------------------------------------
@@ -388,3 +390,102 @@ def r4(cx):
     wf = [c for c in g.calls() if c.q.endswith("ModelInfo::workflow")]
     cx.ob("C20.R4", "start:parse-error", len(wf) == 1 and classify(m, g, wf[0])[0] == "PROPAGATED", "a stored model that cannot be parsed fails the start as well", wf[0].loc if wf else g.loc())
     cx.floor("C20.R4", 2)
+
+
+
+def cursor_local(f, op):
+    """the local a `&mut cursor` argument borrows from (through re-borrows), or None"""
+    if op[0] == "k":
+        return None
+    loc, proj = op[1]
+    for _ in range(8):
+        ds = [d for d in f.defs().get(loc, [])]
+        refs = []
+        for bi, b in enumerate(f.blocks):
+            for st in b["s"]:
+                if st[0] == "A" and st[1][0] == loc and not st[1][1] and st[2][0] == "ref":
+                    refs.append(st[2][1])
+        if len(refs) == 1 and len(ds) == 1:
+            loc = refs[0][0]
+            continue
+        return loc
+    return None
+
+
+def r5_cursors(cx, rule):
+    m = cx.m
+    pa = Prov(m, "alias")
+    n = 0
+    for fname in ("build_workflow", "build_step", "build_branch", "build_act"):
+        f = m.one(r"^acts::scheduler::tree::build::%s$" % fname)
+        loops = natural_loops(f)
+        mk = [c for c in f.calls() if c.q.endswith("NodeTree::make")]
+        if len(mk) != 1:
+            raise Anchor("%s: node creation not found" % fname)
+        sites = [c for c in f.calls() if re.search(r"build::build_(step|act|branch)$", c.q)]
+        by_cursor = {}
+        for c in sites:
+            L = cursor_local(f, c.args[3])
+            by_cursor.setdefault(L, []).append(c)
+        for L, cs in sorted(by_cursor.items(), key=lambda x: x[1][0].b):
+            name = f.names.get(L, "_%s" % L)
+            key = "%s:%s" % (fname, short_name(cs[0].q).split("::")[-1] + "@" + _container_of(f, pa, cs[0]))
+            n += 1
+            if len(cs) != 1:
+                cx.ob(rule, key + ":own-cursor", False, "`%s`: the cursor `%s` is shared by %d child-builder calls (%s): the first child of the later chain is linked behind the last child of the earlier one instead of hanging below the node" % (
+                    fname, name, len(cs), ", ".join("%s line %s" % (short_name(c.q), c.line) for c in cs)), cs[0].loc)
+                continue
+            c = cs[0]
+            inits = [d for d in f.defs().get(L, []) if d[2] in ("call", "assign")]
+            ok_init = False
+            ib = None
+            if len(inits) == 1 and inits[0][2] == "call":
+                ib = inits[0][0]
+                ic = Call(f, ib)
+                if (ic.callee.get("decl") or "") == "std::clone::Clone::clone":
+                    from rules.c04 import _is_node
+                    ok_init = _is_node(f, pa, pa.root(f, ic.args[0]), mk[0]) or _via_clone_of_node(f, pa, ic, mk[0])
+            cx.ob(rule, key + ":starts-at-node", ok_init, "`%s`: the cursor `%s` of this chain starts as the node being built (so the first child differs in level and is attached below it)" % (fname, name), c.loc)
+            enclosing = sorted([(len(body), h, body) for h, body in loops if c.b in body])
+            if not enclosing or ib is None:
+                cx.ob(rule, key + ":reset-per-chain", False, "`%s`: the child-builder call is not in a loop / the cursor has no single initialisation" % fname, c.loc)
+                continue
+            inner = enclosing[0][2]
+            outer = [x[2] for x in enclosing[1:]]
+            ok = ib not in inner and all(ib in body for body in outer)
+            cx.ob(rule, key + ":reset-per-chain", ok,
+                  "`%s`: the cursor `%s` is initialised outside the loop over the chain's elements (siblings are linked) and inside every enclosing loop (each handler starts a chain of its own)%s" % (
+                      fname, name, "" if ok else " - found: init %s the element loop, inside %d of %d enclosing loops" % ("inside" if ib in inner else "outside", sum(1 for b in outer if ib in b), len(outer))), c.loc)
+    cx.floor(rule, 8)
+
+
+def _via_clone_of_node(f, pa, ic, mk):
+    """`let parent = node.clone(); let mut prev = node.clone()` - a clone of a clone of the node"""
+    r = pa.root(f, ic.args[0])
+    for _ in range(3):
+        if r[0] == "call" and r[2] == mk.b:
+            return True
+        if r[0] == "call":
+            c = Call(f, r[2])
+            if c.args:
+                r = pa.root(f, c.args[0])
+                continue
+        return False
+    return False
+
+
+def _container_of(f, pa, c):
+    r = pa.root(f, c.args[0])
+    parts = []
+    for _ in range(3):
+        if r[0] == "call" and ITER_NEXT.search(r[1]):
+            src = pa.iter_source(f, ("call", r[1], r[2], ()))
+            if src is None:
+                break
+            s0 = src[0]
+            parts = [x for x in s0[3] if isinstance(x, str) and not x.startswith("@") and not x.isdigit() and x != "*"] + parts
+            if s0[0] == "call" and ITER_NEXT.search(s0[1]):
+                r = ("call", s0[1], s0[2], ())
+                continue
+        break
+    return ".".join(parts) or "?"
